@@ -30,20 +30,21 @@ func (c Choice) Label() string {
 
 // Scenario is a closed program for X1
 type Scenario struct {
-	Name    string
-	Desc    string
-	Opts    func() WorldOpts
-	Prefix  []XEvent       // optional history that is replayed (canonical schedule) before the drivers start
-	Setup   func(w *World) // spawns the driver threads
-	Env     func(w *World) []EnvEvent
-	Check   func(w *World, x *Exec) []Violation
-	Horizon int
-	FailOK  bool               // offer "fail" outcomes for tasks in addition to "done"
-	NoTick  bool               // never offer clock ticks (scenarios without timers)
-	Forced  bool               // offer the cancellation of the forced-shutdown context as an environment event
-	Bound   *int               // deviation bound override
-	Static  func() []Violation // checks that do not need an execution (run once per scenario)
-	PostRun func() []FoundViolation // evaluated once after the exploration (e.g. on artefacts collected from all executions)
+	Name           string
+	Desc           string
+	Opts           func() WorldOpts
+	Prefix         []XEvent       // optional history that is replayed (canonical schedule) before the drivers start
+	Setup          func(w *World) // spawns the driver threads
+	Env            func(w *World) []EnvEvent
+	Check          func(w *World, x *Exec) []Violation
+	Horizon        int
+	FailOK         bool                    // offer "fail" outcomes for tasks in addition to "done"
+	CancelOutcomes bool                    // the environment decides how a running task reacts to the stop (die / exit non-zero / exit 0)
+	NoTick         bool                    // never offer clock ticks (scenarios without timers)
+	Forced         bool                    // offer the cancellation of the forced-shutdown context as an environment event
+	Bound          *int                    // deviation bound override
+	Static         func() []Violation      // checks that do not need an execution (run once per scenario)
+	PostRun        func() []FoundViolation // evaluated once after the exploration (e.g. on artefacts collected from all executions)
 }
 
 type Violation struct {
@@ -58,7 +59,7 @@ type point struct {
 	labelsHash     uint64
 	threadsEnabled int
 	runningEnabled bool
-	onlyDelayed    bool // every enabled thread was preempted earlier in this execution and is being held back
+	onlyDelayed    bool     // every enabled thread was preempted earlier in this execution and is being held back
 	envKinds       []string // kind per choice ("" for threads)
 	labels         []string
 }
@@ -100,6 +101,10 @@ type Exec struct {
 func defaultEnv(sc *Scenario, w *World) []EnvEvent {
 	var evs []EnvEvent
 	for _, rs := range w.ParkedRuns() {
+		if rs.cancelPending {
+			evs = append(evs, EnvEvent{Kind: "die", Inst: rs.inst, Task: rs.task}, EnvEvent{Kind: "exitnz", Inst: rs.inst, Task: rs.task}, EnvEvent{Kind: "exit0", Inst: rs.inst, Task: rs.task})
+			continue
+		}
 		evs = append(evs, EnvEvent{Kind: "done", Inst: rs.inst, Task: rs.task})
 		if sc.FailOK {
 			evs = append(evs, EnvEvent{Kind: "fail", Inst: rs.inst, Task: rs.task})
@@ -208,6 +213,7 @@ func startWorld(sc *Scenario) *World {
 	opts.DumpOnUnlock = true
 	w := NewWorld(opts)
 	w.FailOK = sc.FailOK
+	w.CancelOutcomes = sc.CancelOutcomes
 	for _, ev := range sc.Prefix {
 		w.ApplyX(ev)
 		w.Quiesce()
@@ -321,6 +327,9 @@ func (w *World) envKey() uint64 {
 			}
 			if rs.cancelled {
 				v |= 8
+			}
+			if rs.cancelPending {
+				v |= 16
 			}
 			h = vsched.Mix(h, v)
 		}
